@@ -21,7 +21,7 @@ BOUNDS = {
     "BH": "p vectors of length 1..3 (4 thorough), symbolic in [0,1], ties, 0 and 1 reachable",
 }
 NOT_COVERED = [
-    "t-test p-value and biweight midvariance numerics: only the values handed to them are decided (uninterpreted results)",
+    "t-test p-value and biweight midvariance numerics: only the values handed to them are decided (uninterpreted results); the real biweight_midvariance is run on one structured family (bivar_outlier)",
     "mode (scipy gaussian_kde); smoothed bootstrap (np.random.randn noise)",
     "symbolic bin weights inside the bootstrap (quotients of sums: ordering queries time out)",
     "segments of more than 4 bins",
@@ -247,15 +247,26 @@ class _NormStub:
         return self.real.cdf(x)
 
 
-def h_bintest(ctx, target_only):
-    """do_bintest with segments: hits are exactly the bins whose BH-adjusted two-sided p is below alpha."""
-    bins = [("chr1", 0, 10, "A"), ("chr1", 10, 20, "Antitarget"), ("chr1", 20, 30, "B")]
+def h_bintest(ctx, target_only, two_chrom=False):
+    """do_bintest with segments: hits are exactly the bins whose BH-adjusted two-sided p is below alpha.
+    two_chrom: bins on two chromosomes, the segment table listing them in the other order -- each
+    bin is still tested against the mean of the segment it lies in."""
+    if two_chrom:
+        bins = [("chr1", 0, 10, "A"), ("chr2", 0, 10, "Antitarget"), ("chr2", 10, 20, "B")]
+    else:
+        bins = [("chr1", 0, 10, "A"), ("chr1", 10, 20, "Antitarget"), ("chr1", 20, 30, "B")]
     logs = [ctx.real(f"b{i}", -5, 5) for i in range(3)]
     wts = [0.75, 0.5, 0.9375]  # 1 - w has an exact square root: sd = 0.5, ~0.707, 0.25
     sl = ctx.real("seg", -5, 5)
     alpha = ctx.real("alpha", 0, 1, lo_open=True, hi_open=True)
     cna = make_cna({"chromosome": [b[0] for b in bins], "start": [b[1] for b in bins], "end": [b[2] for b in bins], "gene": [b[3] for b in bins], "log2": list(logs), "weight": wts})
-    sega = make_cna({"chromosome": ["chr1"], "start": [0], "end": [30], "gene": ["-"], "log2": [sl]})
+    if two_chrom:
+        sl2 = ctx.real("seg2", -5, 5)
+        sega = make_cna({"chromosome": ["chr2", "chr1"], "start": [0, 0], "end": [20, 10], "gene": ["-", "-"], "log2": [sl2, sl]})
+        seg_of = [sl, sl2, sl2]
+    else:
+        sega = make_cna({"chromosome": ["chr1"], "start": [0], "end": [30], "gene": ["-"], "log2": [sl]})
+        seg_of = [sl, sl, sl]
     orig = bintest.norm
     bintest.norm = _NormStub(orig)
     try:
@@ -265,24 +276,48 @@ def h_bintest(ctx, target_only):
         return
     finally:
         bintest.norm = orig
-    got = {r.start: r for r in hits.data.itertuples(index=False)}
-    ctx.observe("hits", sorted(got))
+    got = {(r.chromosome, r.start): r for r in hits.data.itertuples(index=False)}
+    ctx.observe("hits", [list(k) for k in sorted(got)])
     use = [i for i in range(3) if not (target_only and bins[i][3] == "Antitarget")]
-    zs = [(logs[i] - sl) / float(np.sqrt(1 - wts[i])) for i in use]
+    zs = [(logs[i] - seg_of[i]) / float(np.sqrt(1 - wts[i])) for i in use]
     ps = [2 * phi(-Abs(z)) for z in zs]
     qs = bh_oracle(ps)
     for i, q in zip(use, qs):
         want = q < alpha
-        isin = bins[i][1] in got
+        key = (bins[i][0], bins[i][1])
+        isin = key in got
         ctx.claim(Iff(isin, want), "bintest returns exactly the bins whose BH-adjusted two-sided normal p is below alpha")
         if isin:
-            ctx.claim(approx(got[bins[i][1]].p_bintest, q), "reported p_bintest is the adjusted p")
-            ctx.claim(approx(got[bins[i][1]].log2, logs[i] - sl), "reported log2 is the residual from the segment mean")
+            ctx.claim(approx(got[key].p_bintest, q), "reported p_bintest is the adjusted p")
+            ctx.claim(approx(got[key].log2, logs[i] - seg_of[i]), "reported log2 is the residual from the segment mean")
             ctx.cover("hit")
         else:
             ctx.cover("no hit")
     if target_only:
-        ctx.claim(10 not in got, "off-target bins are excluded when asked")
+        ctx.claim(not [k for k in got if k == (bins[1][0], bins[1][1])], "off-target bins are excluded when asked")
+
+
+def h_bivar_outlier(ctx, n, side):
+    """segmetrics' bivar with the real biweight_midvariance, on the structured family the solver can
+    reach (as C19): n - 1 bins at the segment's own log2 (deviation 0) and one bin far away -- the
+    published estimator discards the outlier, low or high, so bivar is 0."""
+    sl = ctx.real("seg", -5, 5)
+    y = ctx.real("y", -30, 30)
+    ctx.assume(y <= sl - 1 if side == "low" else y >= sl + 1)
+    pos = ctx.choice("at", list(range(n)))
+    logs = [sl] * n
+    logs[pos] = y
+    cna = make_cna({"chromosome": ["chr1"] * n, "start": [10 * i for i in range(n)], "end": [10 * i + 10 for i in range(n)], "gene": ["g"] * n, "log2": list(logs), "weight": [0.5] * n})
+    sega = make_cna({"chromosome": ["chr1"], "start": [0], "end": [10 * n], "gene": ["-"], "log2": [sl], "probes": [n]})
+    try:
+        out = segmetrics.do_segmetrics(cna, sega, [], ["bivar"], [])
+    except Exception as exc:
+        ctx.claim(False, f"do_segmetrics raised {type(exc).__name__}", info=str(exc)[:200])
+        return
+    v = col(out, "bivar")[0]
+    ctx.observe("bivar", v)
+    ctx.claim(approx(v, 0), "bivar is the biweight midvariance of the deviations: a far outlier among otherwise zero deviations is discarded, low or high")
+    ctx.cover("reached")
 
 
 ALL_LOC = ("mean", "median", "p_ttest")
@@ -310,6 +345,7 @@ HARNESSES = [
         wall_s=300,
         thorough_wall_s=1500,
     ),
+    Harness("bivar_outlier", h_bivar_outlier, [{"n": n, "side": sd} for n in (3, 4) for sd in ("low", "high")], covers=["reached"], wall_s=200, query_timeout_ms=60000),
     Harness("p_adjust_bh", h_bh, [{"n": 1}, {"n": 2}, {"n": 3}, {"n": 4, "tier": "thorough"}], covers=["ties", "capped at 1"], wall_s=240, thorough_wall_s=1500),
-    Harness("bintest", h_bintest, [{"target_only": False}, {"target_only": True}], covers=["hit", "no hit"], wall_s=300, thorough_wall_s=1500),
+    Harness("bintest", h_bintest, [{"target_only": False}, {"target_only": True}, {"target_only": False, "two_chrom": True}], covers=["hit", "no hit"], wall_s=300, thorough_wall_s=1500),
 ]
